@@ -21,7 +21,7 @@ CLAIMED = {
          'contract-based deductive verification (Verus): freshness postcondition of create + generation monotonicity', '7 C08'),
  'C09': ('proof', 'resolve_direct iff-contract (accepted iff version equal and index < len), archetype version +1 on every destroy and unchanged otherwise, to_direct mints (dense index, current version). The generated archetype/world layer (the code ecs_world! emits for a two-archetype schema, obtained by evaluating the generator functions of macros/src/generate/world.rs as text: R-quote) and the default methods of traits Archetype/World are verified too: to_direct / direct-key lookups at archetype and world level are the storage\'s; ecs_find! mints the direct handle for the found row at the current archetype version.',
          'contract-based deductive verification (Verus) of the direct-handle functions', '7 C09'),
- 'C10': ('proof', 'R-unwind ghost flag: before every call that can raise a documented panic inside a &mut self storage method Verus proves that no field of self has been written or mutably borrowed since entry (so unwinding starts from the well-formed entry state). Scoped: callbacks and allocation panics are argued in DESIGN.md, not proved.',
+ 'C10': ('proof', 'R-unwind ghost flag: before every call that can raise a documented panic inside a &mut self storage method Verus proves that no field of self has been written or mutably borrowed since entry (so unwinding starts from the well-formed entry state). Scoped: callbacks and allocation panics are argued in DESIGN.md, not proved. Query closures: in the instantiated ecs_find!/ecs_iter!/*_borrow!/ecs_iter_destroy! templates the closure stand-in is only invoked between complete operations of the safe archetype API, and at each invocation the storage a panic would unwind from is proved wf() (explicit obligations).',
          'contract-based deductive verification (Verus) of a mechanical unwind-flag discipline', '7 C10'),
  'C12': ('proof', 'len/is_empty/capacity contracts; with_capacity; grow (monotone, capped at 2^24, false only at the limit with state unchanged); push panics only at 2^24 with state untouched; push_within_capacity Ok iff len < cap, capacity unchanged, Err returns the argument; free chain of length cap-len inside wf(). The generated archetype/world layer (the code ecs_world! emits for a two-archetype schema, obtained by evaluating the generator functions of macros/src/generate/world.rs as text: R-quote) and the default methods of traits Archetype/World are verified too: generated len/capacity/is_empty/new/with_capacity/create_within_capacity delegate exactly; World::with_capacity gives each archetype its own capacity field.',
          'contract-based deductive verification (Verus)', '7 C12'),
